@@ -38,6 +38,26 @@ func findConds(p *Prog) []condInfoT {
 			if !ok || len(as.Lhs) != 1 || len(as.Rhs) != 1 {
 				return true
 			}
+			// a condition variable kept by value: x.cond.L = &x.mu
+			if lsel, isSel := ast.Unparen(as.Lhs[0]).(*ast.SelectorExpr); isSel && lsel.Sel.Name == "L" {
+				if csel, isC := ast.Unparen(lsel.X).(*ast.SelectorExpr); isC {
+					if cfv, ok := info.Uses[csel.Sel].(*types.Var); ok && cfv.IsField() && strings.HasSuffix(cfv.Type().String(), "sync.Cond") {
+						arg := ast.Unparen(as.Rhs[0])
+						if u, ok := arg.(*ast.UnaryExpr); ok && u.Op == token.AND {
+							arg = ast.Unparen(u.X)
+						}
+						lf := ""
+						if ls, ok := arg.(*ast.SelectorExpr); ok {
+							lf = ls.Sel.Name
+							if tv, ok := info.Types[ls.X]; ok {
+								lf = canonFieldName(tv.Type, lf)
+							}
+						}
+						res = append(res, condInfoT{condField: cfv, lockClass: mutexClass(info, arg), lockField: lf, pos: p.pos(as)})
+						return true
+					}
+				}
+			}
 			c, ok := ast.Unparen(as.Rhs[0]).(*ast.CallExpr)
 			if !ok || !isFunc(info, c, "sync", "NewCond") || len(c.Args) != 1 {
 				return true
@@ -568,8 +588,11 @@ func c12WaitGroup(p *Prog, r *Report) {
 		}
 		mentionsErr := false
 		ast.Inspect(rs.Results[0], func(x ast.Node) bool {
-			if s, ok := x.(*ast.SelectorExpr); ok && s.Sel.Name == "err" {
-				mentionsErr = true
+			if s, ok := x.(*ast.SelectorExpr); ok {
+				// the stored error: the pipe's only field of type error, whatever it is called
+				if fv, isF := cf.Pkg.TypesInfo.Uses[s.Sel].(*types.Var); isF && fv.IsField() && isErrorType(fv.Type()) {
+					mentionsErr = true
+				}
 			}
 			if c, ok := x.(*ast.CallExpr); ok && p.callIs(cf.Pkg, c, "(*"+pkgAsync+".readWriter).checkErr") {
 				mentionsErr = true
